@@ -19,6 +19,9 @@ CONSTANTS
   EmitDyn = TRUE
   MaxHist = 0
   MaxReorders = 0
+  NameOrder <- NameOrderA
+  BuildCfgs <- BuildCfgsA
+  IntegrCfgs <- IntegrCfgsA
   UnitCfgs <- UnitsNone
   Times <- TimesA
   Tol <- TolA
@@ -30,6 +33,7 @@ INVARIANT InitialStateInBox
 INVARIANT SafeStepIsMaximal
 INVARIANT SafeStepPositive
 INVARIANT BoundDominatesGrid
+INVARIANT SkipKeysRelax
 INVARIANT GeneratorIsRhs
 INVARIANT Emit
 PROPERTY ConservationAction
